@@ -47,9 +47,9 @@ fn emit_for(t: &mut TraceOut, a: &[f64], n: usize, cls: &str, spd: bool) {
                 }
                 _ => t.emit(json!({"kind": "chol", "cls": cls, "n": n, "a": aj, "out": "panic", "l": [], "llt": [], "same": false})),
             }
-            // the same matrix in other units: A 2^(2e) has the factor L 2^e, bit for bit, at slice and Matrix level (e = -40, 30)
+            // the same matrix in other units: A 2^(2e) has the factor L 2^e, bit for bit, at slice and Matrix level (e = -40, 30 and, far from unit scale, -300, 280)
             if let Some(ls) = &cs {
-                for e in [-40i32, 30] {
+                for e in [-40i32, 30, -300, 280] {
                     let a2: Vec<f64> = a.iter().map(|v| v * 2f64.powi(2 * e)).collect();
                     let am2 = Matrix { data: Vector::new(a2.clone()), nrows: n, ncols: n };
                     let c2 = guard(|| cholesky(&a2));
